@@ -62,6 +62,14 @@ def main():
     if has_demo:
         rc, out = sh(["cargo", "test", "--offline", "--test", "demo_seeded"], cwd=WT)
         res["demo_fails_with_patch"] = rc != 0
+        failed = sorted(set(re.findall(r"^test (\S+) \.\.\. FAILED", out, flags=re.M)))
+        res["demo_failed_tests_with_patch"] = failed
+        if meta.get("kind") == "harmless":
+            # property sweeps must still pass; only the tests pinning the old (unspecified) behaviour may fail
+            res["harmless_sweeps_pass_with_patch"] = all(t.split("::")[-1].startswith("behaviour_differs") for t in failed) \
+                and ("test result:" in out)
+            if not res["harmless_sweeps_pass_with_patch"]:
+                res["demo_output_with_patch"] = out[-2500:]
         os.remove(os.path.join(WT, "tests", "demo_seeded.rs"))
     if not a.skip_suite:
         t0 = time.time()
@@ -84,6 +92,9 @@ def main():
         res["check_s"] = round(time.time() - t0)
         res["check_violation_lines"] = [l for l in out.splitlines() if l.startswith("VIOLATION")]
         res["caught"] = rc == 1 and any(l.startswith("VIOLATION property=%s" % prop) for l in out.splitlines())
+        if meta.get("kind") == "harmless":
+            res["false_alarm"] = rc != 0 or bool(res["check_violation_lines"])
+            res["check_tail"] = out[-1500:] if res["false_alarm"] else ""
         rp = [l.split("replay=")[1].split()[0] for l in res["check_violation_lines"] if "replay=" in l]
         if rp and os.path.exists(rp[0]):
             res["first_replay"] = json.load(open(rp[0]))
